@@ -182,7 +182,7 @@ def unit_iter(U):
                 U.prove(base + ".yielded#p%d" % p.index, "a returned Feature is yielded (only a false value is skipped)", p.pc, z3.And(*conds), vars_, replay=replay)
 
 
-def unit_dispatch(U):
+def unit_dispatch(U, prefix="C13", only=None):
     it = Interp()
     made = []
 
@@ -205,9 +205,13 @@ def unit_dispatch(U):
             it.contracts[IT.is_url] = lambda interp, a, k: a[0].startswith("http")
             it.contracts[IT.dedent] = lambda interp, a, k: a[0]
             ctx.stash["fs"] = fs
-            if form == "iterator":
+            if form in ("iterator", "iterator+kwargs"):
                 obj = object.__new__(IT._FeatureIterator)
-                return it.call(IT.DataIterator, [obj], {}), obj
+                own = {"fmt": "gtf", "marker": "the iterator's own (inferred) dialect"}
+                obj.dialect, obj._peek, obj.transform, obj.directives = own, ["peeked"], None, ["d"]
+                ctx.stash["before"] = dict(vars(obj))
+                kw = {} if form == "iterator" else {"dialect": {"fmt": "gff3"}, "checklines": 3, "transform": "T", "force_dialect_check": False}
+                return it.call(IT.DataIterator, [obj], kw), obj
             if form == "path":
                 return it.call(IT.DataIterator, ["/ghost/exists.gff"], {"checklines": 3}), None
             if form == "url":
@@ -227,7 +231,22 @@ def unit_dispatch(U):
                 ctx.stash["xs"] = xs
                 return it.call(IT.DataIterator, [xs], {"transform": "T"}), None
         return run
-    for form in ("iterator", "path", "url", "missing", "string", "db", "list"):
+    def replay_iter(m):
+        # data written in one dialect, handed to update() of a database in another: it must be read in ITS dialect
+        a = "c\ts\tgene\t1\t90\t.\t+\t.\tID=g1;Name=n1\n"
+        b = "c\ts\tmRNA\t1\t90\t.\t+\t.\tID=m1; Parent=g1; Name=n2;\n"
+        db = gffutils.create_db(a, ":memory:", from_string=True)
+        d = IT.DataIterator(b, from_string=True)
+        before = dict(d.dialect)
+        r = IT.DataIterator(d, dialect=db.dialect, checklines=2)
+        db.update(d, make_backup=False)
+        got = sorted(db["m1"].attributes.keys()) if "m1" in [f.id for f in db.all_features()] else "m1 missing"
+        obs = {"same object": r is d, "dialect kept": dict(d.dialect) == before, "m1 keys": got, "parents(m1)": [p.id for p in db.parents("m1")] if got != "m1 missing" else None}
+        exp = {"same object": True, "dialect kept": True, "m1 keys": ["ID", "Name", "Parent"], "parents(m1)": ["g1"]}
+        return {"inputs": {"database text": a, "update text": b}, "expected": exp, "observed": obs, "violates": obs != exp}
+    for form in ("iterator", "iterator+kwargs", "path", "url", "missing", "string", "db", "list"):
+        if only is not None and form not in only:
+            continue
         for p in U.explore(run_form(form), it):
             st = p.ctx.stash
             ok = False
@@ -235,8 +254,9 @@ def unit_dispatch(U):
                 ok = p.kind == "raise" and isinstance(p.value, ValueError)
             elif p.kind == "return":
                 r, obj = p.value
-                if form == "iterator":
-                    ok = r is obj
+                if form in ("iterator", "iterator+kwargs"):
+                    now = dict(vars(obj))
+                    ok = r is obj and set(now) == set(st["before"]) and all(now[k] is st["before"][k] for k in now)
                 elif form == "path":
                     ok = r[1] == "file" and r[2]["data"] == "/ghost/exists.gff" and r[2]["checklines"] == 3
                 elif form == "url":
@@ -249,9 +269,9 @@ def unit_dispatch(U):
                     ok = r[1] == "feature" and r[2]["data"] == ("all_features", st["db"])
                 elif form == "list":
                     ok = r[1] == "feature" and r[2]["data"] is st["xs"] and r[2]["transform"] == "T"
-            U.prove("C13.DataIterator.route[%s]#p%d" % (form, p.index),
-                    "input kind %s is routed as the statement says (iterator instance returned unchanged; string -> temp file with the text; path; URL; FeatureDB -> all_features(); other iterable)" % form,
-                    [], z3.BoolVal(bool(ok)), {})
+            U.prove("%s.DataIterator.route[%s]#p%d" % (prefix, form, p.index),
+                    "input kind %s is routed as the statement says (iterator instance returned as it is - same object, every attribute untouched, whatever keywords accompany it; string -> temp file with the text; path; URL; FeatureDB -> all_features(); other iterable)" % form,
+                    [], z3.BoolVal(bool(ok)), {}, replay=replay_iter if form.startswith("iterator") else None)
 
 
 def unit_init_modes(U):
@@ -403,7 +423,17 @@ def unit_init_state(U, prefix="C13"):
             list(di)
             db = gffutils.create_db(feats, ":memory:")
             obs = {"DataIterator(features).directives": list(di.directives), "create_db(features).directives": list(db.directives)}
-            return {"inputs": "parse a file with directives, then iterate / import Feature objects", "expected": {k: [] for k in obs}, "observed": obs, "violates": any(v for v in obs.values())}
+            # two files: read A completely, then read B; A must still report its own directives
+            fn2 = os.path.join(d, "b.gff")
+            open(fn2, "w").write("##gff-version 3\n##marker other\nchr2\t.\tgene\t1\t5\t.\t+\t.\tID=b\n")
+            ia = IT.DataIterator(fn)
+            list(ia)
+            ib = IT.DataIterator(fn2)
+            list(ib)
+            two = {"A.directives after reading B": list(ia.directives), "B.directives": list(ib.directives)}
+            exp2 = {"A.directives after reading B": ["gff-version 3", "marker old"], "B.directives": ["gff-version 3", "marker other"]}
+            return {"inputs": "parse a file with directives, then iterate / import Feature objects; read two files one after the other", "expected": [{k: [] for k in obs}, exp2], "observed": [obs, two],
+                    "violates": any(v for v in obs.values()) or two != exp2}
         finally:
             import shutil
             shutil.rmtree(d, ignore_errors=True)
@@ -415,7 +445,41 @@ def unit_init_state(U, prefix="C13"):
         U.prove("%s.init.fresh_state#p%d" % (prefix, p.index), "a new iterator has its own empty directives list (not shared with any other iterator, not a default-argument object)", [], z3.BoolVal(bool(ok)), {}, replay=replay)
 
 
-UNITS = [("peek", unit_peek), ("iter", unit_iter), ("dispatch", unit_dispatch), ("init", unit_init_modes), ("init_state", unit_init_state), ("reuse", unit_reuse), ("inspect", unit_inspect)]
+def unit_bounded_update_forms(U):
+    """bounded: FeatureDB.update() fed from one-shot sources (generator, iterator, another database's query) on GFF3 and GTF
+    databases, every checklines around the input length: exactly the given features are added, none lost to the look-ahead"""
+    fails, cases = [], 0
+    gff_base = "c\ts\tgene\t1\t900\t.\t+\t.\tID=g0\n"
+    gtf_base = 'c\ts\texon\t1\t9\t.\t+\t.\tgene_id "g0"; transcript_id "t0";\n'
+    n = 5
+    for fmt, base in (("gff3", gff_base), ("gtf", gtf_base)):
+        for form in ("list", "generator", "iterator", "DataIterator"):
+            for cl in (0, 1, n - 1, n, n + 2):
+                cases += 1
+                import warnings
+                with warnings.catch_warnings():
+                    warnings.simplefilter("ignore")
+                    db = gffutils.create_db(base, ":memory:", from_string=True, disable_infer_genes=True, disable_infer_transcripts=True) if fmt == "gtf" else gffutils.create_db(base, ":memory:", from_string=True)
+                    n0 = db.count_features_of_type()
+                    if fmt == "gff3":
+                        new = [F.Feature(seqid="c", source="s", featuretype="mRNA", start=10 * i + 1, end=10 * i + 5, strand="+", attributes={"ID": ["m%d" % i], "Parent": ["g0"]}) for i in range(n)]
+                    else:
+                        dl = db.dialect
+                        new = [F.Feature(seqid="c", source="s", featuretype="CDS", start=10 * i + 1, end=10 * i + 5, strand="+", attributes={"gene_id": ["g0"], "transcript_id": ["t0"], "ID": ["c%d" % i]}, dialect=dl) for i in range(n)]
+                    src = {"list": lambda: list(new), "generator": lambda: (f for f in new), "iterator": lambda: iter(new), "DataIterator": lambda: IT.DataIterator(iter(new), checklines=cl)}[form]()
+                    kw = dict(disable_infer_genes=True, disable_infer_transcripts=True) if fmt == "gtf" else {}
+                    try:
+                        db.update(src, checklines=cl, make_backup=False, merge_strategy="create_unique", **kw)
+                        got = db.count_features_of_type() - n0
+                    except Exception as ex:
+                        got = "raised %r" % (ex,)
+                if got != n:
+                    fails.append({"case": {"database": fmt, "source": form, "checklines": cl, "features given": n}, "expected": n, "observed": got})
+    U.bounded_result("C13.bounded.update_forms", "update() adds exactly the features it is given, whatever form they come in (one-shot sources included) and whatever checklines is",
+                     "GFF3 and GTF databases x {list, generator, iterator, DataIterator} x checklines in {0, 1, n-1, n, n+2}, n = %d" % n, cases, fails, distinct=cases)
+
+
+UNITS = [("bounded.update_forms", unit_bounded_update_forms), ("peek", unit_peek), ("iter", unit_iter), ("dispatch", unit_dispatch), ("init", unit_init_modes), ("init_state", unit_init_state), ("reuse", unit_reuse), ("inspect", unit_inspect)]
 try:
     from standins import C13 as _S
     UNITS = UNITS + list(_S.UNITS)
